@@ -244,6 +244,14 @@ def run(chk):
             chk.violation(r_inv, "active-branch", "for an active cell resetACTNUM does %s under `%s`; expected global->active = current count, active->global = cell, count += 1" % (then, show(iff["cond"])), rs["file"], iff["l"])
         if [e for e in els if e] != ["this.m_global_to_active.push_back((-1))"]:
             chk.violation(r_inv, "inactive-branch", "for an inactive cell resetACTNUM does %s; expected global->active = -1 only" % els, rs["file"], iff["l"])
+    # the ACTNUM the maps are derived from is the caller's: m_actnum[n] is assigned from the argument before it is tested
+    pname = rs["params"][0]["n"]
+    tops = stmt_list(loops[0]["body"])
+    take = [i for i, s_ in enumerate(tops) if s_["k"] == "Bin" and s_.get("asg") and s_.get("op") == "=" and show(s_["c"][0]) == "this.m_actnum[%s]" % lv and show(strip(s_["c"][1])) == "%s[%s]" % (pname, lv)]
+    test_i = [i for i, s_ in enumerate(tops) if iffs and s_ is iffs[0]]
+    chk.instance(r_inv, "actnum", sample=dict(assigned_from_argument_at=take, tested_at=test_i))
+    if len(take) != 1 or not test_i or take[0] > test_i[0]:
+        chk.violation(r_inv, "actnum", "resetACTNUM(actnum) no longer stores actnum[n] in m_actnum[n] before it decides whether cell n is active: the maps are built from the old ACTNUM, or getACTNUM() disagrees with the maps", rs["file"], loops[0]["l"])
     pre = [show(s) for s in walk(rs["body"]) if s["k"] in ("MCall", "Bin") and s.get("l", 0) < loops[0]["l"]]
     need = ["this.m_global_to_active.clear()", "this.m_active_to_global.clear()", "(this.m_nactive = 0)"]
     chk.instance(r_inv, "reset", sample=pre[:6])
@@ -583,5 +591,115 @@ def run(chk):
                 chk.violation(r_ik, key, "%s decodes the %s entries with %s, whose parameter is an ACTIVE cell index (it subscripts %s / is bounded by %s); the file stores GLOBAL cell numbers (EclipseGrid::save writes cell + 1), so with inactive cells every NNC end point behind the first inactive cell comes back as another cell or throws" % (f["q"], arr_of[arr], call["fn"].split("::")[-1], a2g, nact), f["file"], n["l"])
     if uses < 2:
         raise core.AnalysisBroken("EclIO::EGrid: fewer than 2 uses of the NNC1/NNC2 members found")
+
+    # ---- C13.ijk: every implementation of (i,j,k) <-> global index uses the natural ordering
+    r_ijk = chk.rule("C13.ijk", "all implementations of the cell numbering agree with the natural ordering: global = i + nx (j + ny k) (GridDims::getGlobalIndex, EGrid::global_index / active_index), and the inverse splits a global index as i = g mod nx, j = (g div nx) mod ny, k = g div (nx ny) - written either by successive division or plane first (GridDims::getIJK, EGrid::ijk_from_global_index / ijk_from_active_index / hostCellsIJK, ExtSmryOutput::ijk_from_global_index, ESmry::ijk_from_global_index: the same, one-based)", floor=8)
+    from verif import symb as sy
+    gx = chk.facts(UNITS + ["opm/io/eclipse/ESmry.cpp", "opm/io/eclipse/ExtSmryOutput.cpp"])
+    NXP = re.compile(r"^(this\.)?(getNX\(\)|m_nx|nijk\[0\]|dims\[0\]|nI|host_nijk\[0\]|m_dims\[0\]|this\.getNX\(\))$")
+    NYP = re.compile(r"^(this\.)?(getNY\(\)|m_ny|nijk\[1\]|dims\[1\]|nJ|host_nijk\[1\]|m_dims\[1\]|this\.getNY\(\))$")
+
+    def dim_leaf(e):
+        t = show(decast(e)).replace(" ", "")
+        if NXP.match(t):
+            return sy.S("NX")
+        if NYP.match(t):
+            return sy.S("NY")
+        return None
+    NX_, NY_ = sy.S("NX"), sy.S("NY")
+
+    def forward_ok(t, i_, j_, k_):
+        return t == sy.add(i_, sy.mul(j_, NX_), sy.mul(k_, NX_, NY_))
+
+    def inverse_forms(g):
+        a = (sy.mod(g, NX_), sy.mod(sy.div(g, NX_), NY_), sy.div(sy.div(g, NX_), NY_))
+        plane = sy.mul(NX_, NY_)
+        b = (sy.mod(sy.mod(g, plane), NX_), sy.div(sy.mod(g, plane), NX_), sy.div(g, plane))
+        return [a, b]
+    FWD = [("Opm::GridDims::getGlobalIndex", 3), ("Opm::EclIO::EGrid::global_index", 3), ("Opm::EclIO::EGrid::active_index", 3)]
+    for q, npar in FWD:
+        fs_ = [f for f in gx.fn(q) if f.get("body") and len(f.get("params") or []) == npar]
+        if len(fs_) != 1:
+            raise core.AnalysisBroken("%s(i,j,k): %d definitions" % (q, len(fs_)))
+        f = fs_[0]
+        pi, pj, pk = (p_["n"] for p_ in f["params"])
+
+        def leaf_f(e, pi=pi, pj=pj, pk=pk):
+            d = dim_leaf(e)
+            if d is not None:
+                return d
+            if e.get("k") == "Ref" and e.get("d") == "Parm":
+                return sy.S({pi: "i", pj: "j", pk: "k"}.get(e["n"], e["n"]))
+            return None
+        locs = {v["n"] for n in walk(f["body"]) if n["k"] == "Decl" for v in n["vars"]}
+        ev_ = sy.Eval(leaf_f, locs)
+        env = ev_.run([s_ for s_ in stmt_list(f["body"]) if s_["k"] in ("Decl", "Bin")], {})
+        rets = [r_ for r_ in stmt_list(f["body"]) if r_["k"] == "Return" and r_.get("e") is not None]
+        terms = []
+        for r_ in rets:
+            e = strip(r_["e"])
+            sb = None
+            if e.get("k") == "Idx":
+                sb = e["c"][1]
+            elif e.get("k") == "OpCall" and e.get("op") == "[]":
+                sb = e["a"][1]
+            terms.append(ev_.term(sb if sb is not None else e, env))
+        ok = len(terms) == 1 and terms[0] is not None and forward_ok(terms[0], sy.S("i"), sy.S("j"), sy.S("k"))
+        chk.instance(r_ijk, "forward:" + q, sample=dict(function=q, index=sy.show_term(terms[0]) if terms else None, natural=ok))
+        if not ok:
+            chk.violation(r_ijk, "forward:" + q, "%s numbers cell (i,j,k) as %s; the natural ordering every array in this library is stored in is i + nx*j + nx*ny*k" % (q, sy.show_term(terms[0]) if terms else "?"), f["file"], f["l"])
+    INV = [("Opm::GridDims::getIJK", 0), ("Opm::EclIO::EGrid::ijk_from_global_index", 0), ("Opm::EclIO::ExtSmryOutput::ijk_from_global_index", 0),
+           ("Opm::EclIO::ESmry::ijk_from_global_index", 1), ("Opm::EclIO::EGrid::ijk_from_active_index", 0), ("Opm::EclIO::EGrid::hostCellsIJK", 0)]
+    for q, base1 in INV:
+        fs_ = [f for f in gx.fn(q) if f.get("body")]
+        if len(fs_) != 1:
+            raise core.AnalysisBroken("%s: %d definitions" % (q, len(fs_)))
+        f = fs_[0]
+        params = [p_["n"] for p_ in f.get("params") or []]
+        body = f["body"]
+        ints_ = [p_["n"] for p_ in f.get("params") or [] if re.fullmatch(r"(const )?(std::)?(size_t|int|unsigned int|unsigned long|long)", (p_.get("t") or "").strip())]
+        gname = ints_[0] if ints_ else (params[0] if params else None)
+        out_names = None
+        if q.endswith("ESmry::ijk_from_global_index"):
+            out_names = params[1:4]
+        loopvar = None
+        if not params:
+            lp = [n for n in stmt_list(body) if n["k"] == "ForRange"]
+            if len(lp) != 1:
+                raise core.AnalysisBroken("%s: loop over the cells not found" % q)
+            loopvar = lp[0]["var"]["n"]
+            body = lp[0]["body"]
+            gname = loopvar
+
+        def leaf_i(e, gname=gname):
+            d = dim_leaf(e)
+            if d is not None:
+                return d
+            if e.get("k") in ("Idx", "OpCall") and show(decast(e)).replace(" ", "").startswith("this.glob_index["):
+                return sy.S("g")
+            return None
+        locs = {v["n"] for n in walk(body) if n["k"] == "Decl" for v in n["vars"]} | set(params)
+        ev_ = sy.Eval(leaf_i, locs)
+        env0 = {p_: sy.S("g" if p_ == gname else p_) for p_ in params}
+        if loopvar:
+            env0[loopvar] = sy.S("g")
+            ev_.locals.add(loopvar)
+        env = ev_.run(stmt_list(body), env0)
+        if out_names:
+            got = tuple(env.get(n_) for n_ in out_names)
+        else:
+            arr = [v["n"] for n in walk(body) if n["k"] == "Decl" for v in n["vars"] if "array<int, 3>" in (v.get("t") or "") or "array<int,3>" in (v.get("t") or "")]
+            if len(arr) != 1:
+                raise core.AnalysisBroken("%s: the (i,j,k) triple was not found" % q)
+            got = tuple(env.get("%s[%d]" % (arr[0], d_)) for d_ in range(3))
+        g_ = sy.S("g")
+        if base1:
+            forms = [tuple(sy.add(sy.I(1), t) for t in fm) for fm in inverse_forms(sy.add(g_, sy.I(-1)))]
+        else:
+            forms = inverse_forms(g_)
+        ok = None not in got and got in forms
+        chk.instance(r_ijk, "inverse:" + q, sample=dict(function=q, i=sy.show_term(got[0]), j=sy.show_term(got[1]), k=sy.show_term(got[2]), natural=ok))
+        if not ok:
+            chk.violation(r_ijk, "inverse:" + q, "%s splits a global index g into (i, j, k) = (%s, %s, %s); under the natural ordering it is (g mod nx, (g div nx) mod ny, g div (nx ny))%s: the cell it names is not the one the index belongs to" % (q, sy.show_term(got[0]), sy.show_term(got[1]), sy.show_term(got[2]), ", one-based" if base1 else ""), f["file"], f["l"])
 
     chk.assumptions += ["closure of the parallel loop is followed to depth 3 within EclipseGrid.cpp, GridDims.cpp and calculateCellVol.cpp; std:: callees are trusted to be re-entrant"]
